@@ -16,6 +16,11 @@ EXTRA_POOL = {   # assertions that make interpolation work harder than the histo
     'PROP': ['(or p q)', '(or (not p) r)', '(not r)', '(or (not q) r)', '(= s p)'],
     'QF_UFLRA': ['(<= x y)', '(<= y x)', '(not (= (f x) (f y)))', '(or (> (f x) 0) p)', '(< (f y) 0)'],
 }
+REDUND_POOL = {   # redundant clauses over two atoms: shared atoms occur unequally often in A- and B-leaves of the proof, which is what the
+                  # proof-sensitive labelling functions (Boolean algorithms 3-5) key on
+    'PROP': ['(and (or r q) q)', '(or (not q) r)', '(and (or (not q) r) (not r))', '(or q (not r))', '(not (and q r))'],
+    'QF_LRA': ['(and (or (<= y 0) (<= x 0)) (<= x 0))', '(or (not (<= x 0)) (<= y 0))', '(and (or (not (<= x 0)) (<= y 0)) (not (<= y 0)))', '(or (<= x 0) (not (<= y 0)))', '(not (and (<= x 0) (<= y 0)))'],
+}
 
 
 def alg_text(alg):
@@ -70,7 +75,7 @@ def grp(g):
 def task(t):
     prop, famname, poolname, m, algs, start, step = t
     fam = F.FAMILIES[famname]
-    pool = (H.POOLS if poolname == 'hist' else EXTRA_POOL)[famname]
+    pool = (H.POOLS if poolname == 'hist' else REDUND_POOL if poolname == 'redund' else EXTRA_POOL)[famname]
     usyms = user_symbols(fam)
     res = core.new_result(); cov = res['cov']
     w = S.worker()
@@ -284,7 +289,8 @@ def run(prop, tier):
     algs = ALG
     m = 4
     tasks = [(prop, f, pn, m, algs, s, 4) for f in ITP_FAMS for pn in ('hist', 'extra') for s in range(4)]
-    chk.run_stage('single frame, subsets<=%d, %d settings' % (m, len(algs)), tasks, task)
+    tasks += [(prop, f, 'redund', 5, algs, s, 4) for f in REDUND_POOL for s in range(4)]
+    chk.run_stage('single frame, subsets<=%d (<=5 for the redundant-clause pools), %d settings' % (m, len(algs)), tasks, task)
     if prop == 'C08':
         chk.run_stage('histories L<=6 (3 assertions), default setting', [(prop, f, 6, s, 8) for f in ('QF_UF', 'QF_LRA', 'QF_LIA', 'PROP') for s in range(8)], hist_task)
         chk.run_stage('placements: popped frame [assert s, (check), assert t] x every unsat subset (<=3) x every split', [(prop, f, s, 4) for f in PLACE_POOL for s in range(4)], place_task)
